@@ -218,6 +218,7 @@ func gen(t *rapid.T) Case {
 	o.IfFeatures = true
 	schema.AugmentIfFeatures = true
 	o.Extras = true
+	o.Posix = true // posix-pattern statements of openconfig-extensions in string types
 	schema.AugmentExtras = true
 	set, _ := schema.Generate(t, o)
 	c := Case{Set: set}
